@@ -37,6 +37,10 @@ Theorem C13_errors_exact : forall fs p,
   unique_names (scan fs) -> (In p (error_keys (refresh fs)) <-> In p (expected_error_keys (scan fs))).
 Proof. exact errors_exact_fs. Qed.
 Print Assumptions C13_errors_exact.
+Theorem C13_errors_eq : forall files,
+  sorted (loaded files) -> unique_names files -> error_keys (refresh_files files) = expected_error_keys files.
+Proof. exact errors_eq. Qed.
+Print Assumptions C13_errors_eq.
 (* hence: an explicit refresh returns no error when every directory is readable or absent and every Spec file is valid
    and unconflicted *)
 Theorem C13_all_good_no_error : forall fs,
